@@ -367,7 +367,7 @@ def wellformed(rng, name):
     """Conventional core plus the extra shapes of DESIGN §4."""
     feat = {
         "version": rng.choice(["v1", "v1beta1", "v1p1beta1", "v2alpha", "v1", None]),
-        "ns": rng.choice([["vp"], ["vp", "cloud"], ["vp", "cloud", "x3"], ["vp"]]),
+        "ns": rng.choice([["vp"], ["vp", "cloud"], ["vp", "cloud", "x3"], ["vp"], []]),
         "nfiles": rng.choice([1, 1, 2]),
         "exotic": rng.random() < 0.6,
         "streams": rng.random() < 0.5,
@@ -490,4 +490,68 @@ def types_zoo(rng, name, nmsgs=6):
     s = f.service("Zoo", host=f"{name}.googleapis.com")
     s.rpc("Echo", P + ".AllScalars", P + ".AllScalars")
     api.info.update(pkg=pkg, version=ver, ns=["vp"], name=name, host=f"{name}.googleapis.com")
+    return api
+
+
+# lower_snake names (style guide) plus the forms the generator explicitly sanitises: dots, keywords, control
+# parameter names.  Hyphens and CamelCase file names are outside the style guide and are not generated (DESIGN §10).
+ODD_FILE_NAMES = ["service", "file.with.dots", "import", "metadata", "retry", "timeout", "request",
+                  "class", "types", "a_b_c", "x2", "pass", "v1.resources", "none", "async"]
+
+
+def layout_api(rng, name):
+    """Small APIs stressing package/file naming (C11): 0..3 namespace segments,
+    version forms, 1..4 target files, dependency-only files, odd file names."""
+    api = Api(name)
+    tags = api.tags
+    nns = rng.choice([0, 1, 1, 2, 3])
+    ns = ["vp", "cloud", "x3"][:nns]
+    ver = rng.choice(["v1", "v1beta1", "v1p1beta1", "v2alpha", None])
+    pkg = ".".join(ns + [name] + ([ver] if ver else []))
+    P = "." + pkg
+    dirp = pkg.replace(".", "/")
+    tags.update([f"ns:{nns}", "ver:" + (ver or "none")])
+    # dependency-only package
+    depf = None
+    if rng.random() < 0.6:
+        dpkg = f"vpdep.{name}dep.v1"
+        depf = File(f"vpdep/{name}dep/v1/things.proto", dpkg, deps=[])
+        dm = depf.message("Thing")
+        dm.field("id", "string")
+        depf.enum("Flavor", "FLAVOR_UNSPECIFIED", "SWEET")
+        api.add(depf, target=False, synth=True)
+        tags.add("dependency-file")
+    nfiles = rng.randint(1, 4) if ver else 1
+    names = rng.sample(ODD_FILE_NAMES, nfiles)
+    files = []
+    for i, fn in enumerate(names):
+        deps = list(STD_DEPS) + ([depf.pb.name] if depf else []) + [x.pb.name for x in files]
+        f = File(f"{dirp}/{fn}.proto", pkg, deps=deps)
+        tags.add("fname:" + fn)
+        kind = rng.choice(["types", "types", "both", "service-only" if files else "both", "empty" if files else "types"])
+        if i == nfiles - 1 and not any(x.pb.service for x in files):
+            kind = "both"
+        if kind in ("types", "both"):
+            m = f.message(f"M{i}")
+            m.field("name", "string")
+            if depf and rng.random() < 0.7:
+                m.field("thing", f".vpdep.{name}dep.v1.Thing")
+                m.field("flavor", f"enum:.vpdep.{name}dep.v1.Flavor")
+            if files and files[0].pb.message_type:
+                m.field("prev", P + "." + files[0].pb.message_type[0].name)
+            f.enum(f"E{i}", f"E{i}_UNSPECIFIED", f"E{i}_A")
+        if kind in ("both", "service-only"):
+            src = f if f.pb.message_type else files[0]
+            mt = P + "." + (src.pb.message_type[0].name if src.pb.message_type else "M0")
+            if not f.pb.message_type and not files[0].pb.message_type:
+                m = f.message(f"Q{i}")
+                m.field("name", "string")
+                mt = P + f".Q{i}"
+            s = f.service(f"Svc{i}", host=f"{name}.googleapis.com")
+            s.rpc("Get", mt, mt, http={"get": "/v1/{name=things/*}"})
+            s.rpc("Do", mt, ".google.protobuf.Empty")
+        tags.add("filekind:" + kind)
+        files.append(f)
+        api.add(f)
+    api.info.update(pkg=pkg, version=ver, ns=ns, name=name, host=f"{name}.googleapis.com")
     return api
